@@ -316,7 +316,7 @@ func genScript(r *lib.Rng, shape int) []step {
 			case 0, 1, 2, 3, 4:
 				add(0, actDeliver)
 			case 5:
-				add(0, lib.Pick(r, actDupReq, actForge))
+				add(0, lib.Pick(r, actDupReq, actForge, actUnsync))
 			case 6:
 				add(0, actKeFail)
 			default:
@@ -418,6 +418,12 @@ func genScript(r *lib.Rng, shape int) []step {
 			add(0, lib.Pick(r, actDeliver, actDeliver, actDropReply, actKeOdd))
 		}
 		add(0, actDeliver)
+	case 14: // a server that is not synchronised: authentic replies with fresh cookies that are no usable NTP replies
+		add(0, actDeliver)
+		for i := int(r.Range(9, 14)); i > 0; i-- {
+			add(0, lib.Pick(r, actUnsync, actUnsync, actUnsync, actDeliver))
+		}
+		add(0, actDeliver)
 	case 7: // one real timeout
 		add(0, actDeliver)
 		add(0, actTimeout)
@@ -442,11 +448,11 @@ func genHistories(r *lib.Rng, tier string) (scripts [][]step) {
 		s = append(s, step{action: actDeliver}, step{action: actDeliver}, step{action: actDeliver})
 		scripts = append(scripts, s)
 	}
-	for _, sh := range []int{8, 9, 10, 11, 11, 11, 11, 11, 11, 12, 12, 13, 13, 13, 13, 13, 13} {
+	for _, sh := range []int{8, 9, 10, 11, 11, 11, 11, 11, 11, 12, 12, 13, 13, 13, 13, 13, 13, 14, 14, 14, 14, 14} {
 		scripts = append(scripts, genScript(r, sh))
 	}
 	for i := 0; i < n; i++ {
-		shape := lib.Pick(r, 0, 1, 1, 1, 2, 2, 3, 3, 3, 4, 4, 5, 6, 6, 8, 8, 9, 10, 10, 11, 11, 11, 12, 13, 13)
+		shape := lib.Pick(r, 0, 1, 1, 1, 2, 2, 3, 3, 3, 4, 4, 5, 6, 6, 8, 8, 9, 10, 10, 11, 11, 11, 12, 13, 13, 14, 14)
 		if i%40 == 7 {
 			shape = 7
 		}
@@ -662,7 +668,7 @@ func genSCIONHistories(r *lib.Rng, tier string) (scripts [][]step) {
 		scripts = append(scripts, s)
 	}
 	for i := 0; i < n; i++ {
-		scripts = append(scripts, genScript(r, lib.Pick(r, 0, 0, 1, 1, 2, 3, 3, 4, 5, 8, 9, 10, 10, 11, 12)))
+		scripts = append(scripts, genScript(r, lib.Pick(r, 0, 0, 1, 1, 2, 3, 3, 4, 5, 8, 9, 10, 10, 11, 12, 14, 14)))
 	}
 	return scripts
 }
@@ -799,4 +805,79 @@ func genIlv(r *lib.Rng, tier string) (js []job) {
 		js = append(js, job{"c11.ilv", lib.L(it...)})
 	}
 	return js
+}
+
+// ---- c11.conck: two calls overlap on a fetcher whose pool is empty while the key exchange takes its time ----
+
+// args: [cut]: where in the server's stream the first key exchange is held back
+func (e *env) runConcKe(args string) (tags, a, outs string) {
+	t := strings.Fields(strings.NewReplacer("[", " ", "]", " ").Replace(args))
+	x := e.newClient(false)
+	fr := x.front
+	fr.release = make(chan struct{})
+	fr.arg.Store(lib.ParseI(t[0]))
+	conns0 := fr.conns.Load()
+	fr.mode.Store(9)
+	ctx := context.Background()
+	type res struct {
+		d   ntske.Data
+		err error
+	}
+	ra, rb := make(chan res, 1), make(chan res, 1)
+	go func() {
+		d, err := x.fetcher.FetchData(ctx)
+		ra <- res{d, err}
+	}()
+	// the first call is inside its key exchange
+	for i := 0; fr.conns.Load() == conns0; i++ {
+		if i > int(waitLong/time.Millisecond) {
+			fatal("first key exchange did not start")
+		}
+		time.Sleep(time.Millisecond)
+	}
+	go func() {
+		d, err := x.fetcher.FetchData(ctx)
+		rb <- res{d, err}
+	}()
+	// the second call either waits for the first one (and cannot return), or - if nothing makes it
+	// wait - runs a key exchange of its own and returns; give it time for that, then let the first go on
+	var b res
+	bDone := false
+	select {
+	case b = <-rb:
+		bDone = true
+	case <-time.After(500 * time.Millisecond):
+	}
+	close(fr.release)
+	var ar res
+	select {
+	case ar = <-ra:
+	case <-time.After(2 * waitLong):
+		fatal("FetchData did not return")
+	}
+	if !bDone {
+		select {
+		case b = <-rb:
+		case <-time.After(2 * waitLong):
+			fatal("FetchData did not return")
+		}
+	}
+	fr.mode.Store(0)
+	head := func(r res) []byte {
+		if r.err != nil || len(r.d.Cookie) == 0 {
+			return nil
+		}
+		return r.d.Cookie[0]
+	}
+	d := x.fetcher.VerifData()
+	facts := make([]string, len(d.Cookie))
+	for i, c := range d.Cookie {
+		facts[i], _ = e.cookieFacts(c)
+	}
+	tags = "conck,nt"
+	if bDone {
+		tags += ",second-call-overtook"
+	}
+	return tags, args, lib.L(lib.I(x.ke.Load()), bl([][]byte{head(ar), head(b)}), lib.Bool(ar.err != nil), lib.Bool(b.err != nil),
+		lib.L(facts...), lib.B(d.C2sKey), lib.B(d.S2cKey), lib.B(ar.d.C2sKey), lib.B(b.d.C2sKey))
 }
